@@ -694,6 +694,83 @@ def _n12(ctx, n, batch, p):
     return op, W @ toeplitz_ref(col) @ W.mT
 
 
+# ---------------------------------------------------------------- builders added after the first seeded-defect round
+@builder("BlockDiagDim3", tags=("fixedbatch",))
+def _block_diag_dim3(ctx, n, batch, p):
+    # block dimension first, followed by TWO batch dimensions (a rotation, not a swap, must bring it to position -3)
+    blocks = ctx.leaf(p + "Bk", (2, 2, 3, n, n))
+    op = O.BlockDiagLinearOperator(O.DenseLinearOperator(blocks), block_dim=0)
+    return op, block_diag_ref(blocks.permute(1, 2, 0, 3, 4))
+
+
+@builder("BlockInterleavedDim3", tags=("fixedbatch",))
+def _block_interleaved_dim3(ctx, n, batch, p):
+    blocks = ctx.leaf(p + "Bk", (2, 2, 3, n, n))
+    op = O.BlockInterleavedLinearOperator(O.DenseLinearOperator(blocks), block_dim=-5)
+    return op, block_interleaved_ref(blocks.permute(1, 2, 0, 3, 4))
+
+
+@builder("SumBatchDim3", tags=("fixedbatch",))
+def _sum_batch_dim3(ctx, n, batch, p):
+    blocks = ctx.leaf(p + "Bk", (2, 2, 3, n, n))
+    op = O.SumBatchLinearOperator(O.DenseLinearOperator(blocks), block_dim=0)
+    return op, blocks.sum(0)
+
+
+@nest("Sum(Interp,Dense)")
+def _n13(ctx, n, batch, p):
+    m = n + 1
+    K = ctx.leaf(p + "K", batch + (m, m))
+    li = ctx.leaf(p + "li", batch + (n, 2), kind="int", lo=0, hi=m)
+    lv = ctx.leaf(p + "lv", batch + (n, 2))
+    ri = ctx.leaf(p + "ri", batch + (n, 2), kind="int", lo=0, hi=m)
+    rv = ctx.leaf(p + "rv", batch + (n, 2))
+    A = ctx.leaf(p + "A", batch + (n, n))
+    interp = O.InterpolatedLinearOperator(O.DenseLinearOperator(K), li, lv, ri, rv)
+    W1, W2 = interp_matrix(li, lv, m), interp_matrix(ri, rv, m)
+    return interp + O.DenseLinearOperator(A), W1 @ K @ W2.mT + A
+
+
+@nest("Interp(Root)")
+def _n14(ctx, n, batch, p):
+    # same interpolation INDICES on both sides, different weights; base is a RootLinearOperator with a dense root
+    m = n + 1
+    R_ = ctx.leaf(p + "R", batch + (m, 2))
+    li = ctx.leaf(p + "li", batch + (n, 2), kind="int", lo=0, hi=m)
+    lv = ctx.leaf(p + "lv", batch + (n, 2))
+    rv = ctx.leaf(p + "rv", batch + (n, 2))
+    op = O.InterpolatedLinearOperator(O.RootLinearOperator(R_), li, lv, li, rv)
+    W1, W2 = interp_matrix(li, lv, m), interp_matrix(li, rv, m)
+    return op, W1 @ (R_ @ R_.mT) @ W2.mT
+
+
+@builder("KroneckerTriangularUpper")
+def _kron_tri_upper(ctx, n, batch, p):
+    A = ctx.leaf(p + "A", batch + (n, n), triu=True, posdiag=True)
+    B_ = ctx.leaf(p + "B", batch + (2, 2), triu=True, posdiag=True)
+    op = O.KroneckerProductTriangularLinearOperator(O.TriangularLinearOperator(A, upper=True), O.TriangularLinearOperator(B_, upper=True), upper=True)
+    return op, kron_ref(A, B_)
+
+
+@builder("CholKronLower", psd=True, pd=True)
+def _chol_kron_lower(ctx, n, batch, p):
+    A = ctx.leaf(p + "A", batch + (n, n), tril=True, posdiag=True)
+    B_ = ctx.leaf(p + "B", batch + (2, 2), tril=True, posdiag=True)
+    Lk = O.KroneckerProductTriangularLinearOperator(O.TriangularLinearOperator(A), O.TriangularLinearOperator(B_))
+    L = kron_ref(A, B_)
+    return O.CholLinearOperator(Lk), L @ L.mT
+
+
+@builder("BatchRepeatPD2", psd=True, pd=True, tags=("fixedbatch",))
+def _batch_repeat_pd2(ctx, n, batch, p):
+    # base with two batch dims, the second one repeated: (2, 2) -> (2, 4)
+    L = ctx.leaf(p + "L", (2, 2, n, n), tril=True, posdiag=True)
+    A = L @ L.mT
+    ctx.register_chol(A, L)
+    rep = torch.Size((1, 2))
+    return O.BatchRepeatLinearOperator(O.DenseLinearOperator(A), rep), A.repeat(1, 2, 1, 1)
+
+
 def select(tags=None, psd=None, pd=None, square=None, names=None, exclude=()):
     out = []
     for nm, b in BUILDERS.items():
